@@ -211,7 +211,7 @@ def scale_free_comparison_rule(repo: Repo, prop: str, rule_id: str, functions, a
             except _Unknown as err:
                 raise AnalysisError(f"{fn.qualname}: scaling degree of '{ast.unparse(node)[:70]}' not determined ({err})") from err
             n += 1
-            diff = None if a is None or b is None else a - b
+            diff = None if a is None or b is None else abs(a - b)
             r.check(
                 diff is None or diff in allowed,
                 fn,
@@ -277,7 +277,7 @@ def perpendicular_guards_rule(repo: Repo, prop: str, rule_id: str, module_prefix
                             except (_Unknown, Inhomogeneous) as err:
                                 raise AnalysisError(f"{fn.qualname}: scaling degree of the perpendicularity guard '{ast.unparse(node)[:70]}' not determined ({err})") from err
                             n += 1
-                            diff = None if a_ is None or b_ is None else a_ - b_
+                            diff = None if a_ is None or b_ is None else abs(a_ - b_)
                             r.check(
                                 diff is None or diff in (0, 1),
                                 fn,
